@@ -273,7 +273,7 @@ def oracle_lines(lines, impl_outs):
     res = []
     for l, o in zip(lines, impl_outs):
         if not o or " => " not in o:
-            res.append(None)
+            res.append("scpanic")     # panic/crash: the specification admits only a result or an error
             continue
         info = parse_desc(o)
         if info["x0"] != 0 or info["y0"] != 0:
@@ -294,6 +294,25 @@ def oracle_verdict(line, impl_out, oracle_out):
 def shrink(line):
     # drop the inline source description from the replay (the harness ignores it)
     return line.split(" | ", 1)[0]
+
+
+def outside_guard_probe():
+    """NOT part of the verdict: documents what happens beyond the 2^31 guard, where float64(width) is inexact.
+    EAN-8 (67 modules), k = 134435809772260, width = 67*k - 1 > 2^53: float64(width) rounds to 67*k, the code takes
+    factor k although k*67 > width; the model (integer division) and the property say factor k-1, offset 33."""
+    try:
+        impl = os.path.join(BUILD, "impl_" + PID)
+        model = os.path.join(BUILD, "model_" + PID)
+        spec = "ean:d:" + hx("1234567")
+        d = run_lines(impl, ["scsrc " + spec], 1)[0]
+        l = "scat %s 9007199254741419x1:a @ 0,0 32,0 33,0 | %s" % (spec, d)
+        i = run_lines(impl, [l], 1)[0].split(" ")[-1]
+        m = run_lines(model, [l], 1)[0].split(" ")[-1]
+        return {"case": l.split(" | ")[0], "impl_pixels": i, "integer_model_pixels": m,
+                "agree": i == m,
+                "note": "outside the guard 1 <= width < 2^31 of the theorems; reported as a finding, not a violation of the checked domain"}
+    except Exception as e:      # never let the probe influence the check
+        return {"error": str(e)}
 
 
 def distribution(lines, impl_outs):
@@ -326,7 +345,8 @@ def distribution(lines, impl_outs):
                             else "10-999" if f < 1000 else ">=1000"] += 1
                     parity["odd free width" if (W - f * w) % 2 else "even free width"] += 1
             w, h = W, H
-    return {"symbologies": dict(kinds), "stage_status": dict(status), "factors": dict(factors),
+    probe = outside_guard_probe()
+    return {"outside_guard_probe": probe, "symbologies": dict(kinds), "stage_status": dict(status), "factors": dict(factors),
             "fill": dict(fills), "chain_lengths": {str(k): v for k, v in nst.items()},
             "free_space_parity": dict(parity), "huge_sampled_cases": huge}
 
@@ -340,3 +360,92 @@ RULE = ("sources: 9 1-D and 6 2-D symbols from the public encoders of /repo (ean
         "default/explicit fills, and widths k*w-1,k*w,k*w+1 for k up to (2^31-1)/w with At() sampled at block/margin "
         "boundaries. Every pixel of every non-huge stage is compared model vs implementation and validated against the "
         "specification. non-trivial = at least one stage produced an image; distinct = distinct case line")
+
+
+# --------------------------------------------------------------------------
+# kernel-side sample: the same model evaluated by Coq's vm_compute on cases the
+# implementation ran (ties the extracted OCaml code to the Gallina definitions)
+def _fill_term(tok, white):
+    if tok == "d":
+        return "None"
+    return "Some %d" % (ord(white) if tok == "w" else ord(tok))
+
+
+def _trivial_case():
+    return "(mk 1 0 0 [[49]] None None, 119, [], [])"
+
+
+def coq_case(line, impl_out):
+    st = stage_tokens(impl_out)
+    if st is None:
+        return _trivial_case()
+    front, desc = line.split(" | ", 1)
+    ft = front.split(" ")
+    t = desc.split(" ")
+    info = parse_desc(desc)
+    white = t[7]
+    rows = [] if t[8] == "-" else t[8].split("/")
+    rows_t = "[%s]" % "; ".join("[%s]" % "; ".join(str(ord(c)) for c in r) for r in rows)
+    scheme = "None" if t[6] == "-" else "Some (%d, %d)" % (ord(t[6][0]), ord(t[6][1]))
+    cs = "None" if t[4] == "-" else "Some (%s)" % t[4]
+    src = "mk %d %d %d %s (%s) (%s)" % (info["dims"], info["x0"], info["y0"], rows_t, scheme, cs)
+    if "@" in ft:
+        k = ft.index("@")
+        steps, coords = ft[2:k], [tuple(int(v) for v in c.split(",")) for c in ft[k + 1:]]
+    else:
+        steps, coords = ft[2:], None
+    reqs = []
+    for s in steps:
+        wh, fill = s.split(":")
+        W, H = wh.split("x")
+        reqs.append("(%s, %s, %s)" % (W, H, _fill_term(fill, white)))
+    exp = []
+    for r in st:
+        if not r.startswith("OK "):
+            exp.append("None")
+            continue
+        rt = r.split(" ")[1:]
+        ri = parse_desc(" ".join(rt))
+        rcs = "None" if rt[4] == "-" else "Some (%s)" % rt[4]
+        px = []
+        if coords is not None:
+            sm = rt[8]
+            if sm != "-":
+                px = [(x, y, sm[i]) for i, (x, y) in enumerate(coords) if i < len(sm)]
+        else:
+            rr = rt[8].split("/") if rt[8] != "-" else []
+            allpx = [(x, y, c) for y, row in enumerate(rr) for x, c in enumerate(row)]
+            stride = max(1, len(allpx) // 1200)
+            px = allpx[::stride] + allpx[-1:]
+        exp.append("Some (%d, %d, %s, [%s])" % (ri["w"], ri["h"], rcs,
+                                               "; ".join("(%d, %d, %d)" % (x, y, ord(c)) for x, y, c in px)))
+    return "(%s, %d, [%s], [%s])" % (src, ord(white), "; ".join(reqs), "; ".join(exp))
+
+
+KERNEL_HEADER = """From Verif Require Import Prelude ScaleM.
+(* colours are the protocol's pixel characters (their codes); 111 = 'o' outside a raw source *)
+Definition mk (dims x0 y0 : Z) (rows : list (list Z)) (scheme : option (Z * Z)) (cs : option Z) : source Z :=
+  {| s_dims := dims; s_kind := []; s_content := []; s_cmodel := 0;
+     s_x0 := x0; s_y0 := y0; s_x1 := x0 + zlength (hd [] rows); s_y1 := y0 + zlength rows;
+     s_px := fun x y =>
+       if (x <? x0) || (y <? y0) then 111 else
+       match nth_error rows (Z.to_nat (y - y0)) with
+       | Some r => match nth_error r (Z.to_nat (x - x0)) with Some c => c | None => 111 end
+       | None => 111
+       end;
+     s_scheme := scheme; s_checksum := cs |}.
+Definition optz_eq (a b : option Z) : bool :=
+  match a, b with None, None => true | Some x, Some y => x =? y | _, _ => false end.
+Definition stage_ok (o : outcome (source Z)) (e : option (Z * Z * option Z * list (Z * Z * Z))) : bool :=
+  match o, e with
+  | Err, None => true
+  | Ok t, Some (x1, y1, cs, px) =>
+      (s_x0 t =? 0) && (s_y0 t =? 0) && (s_x1 t =? x1) && (s_y1 t =? y1) && optz_eq (s_checksum t) cs &&
+      forallb (fun p : Z * Z * Z => let '(x, y, c) := p in s_px t x y =? c) px
+  | _, _ => false
+  end.
+Definition case_ok (c : source Z * Z * list (request Z) * list (option (Z * Z * option Z * list (Z * Z * Z)))) : bool :=
+  let '(src, white, reqs, exp) := c in
+  let st := scale_stages white src reqs in
+  (length st =? length exp)%nat && forallb (fun p => stage_ok (fst p) (snd p)) (combine st exp).
+"""
